@@ -36,6 +36,7 @@
      sort_pairs/expand_sorted expand with `imports : BTreeSet<(usize, usize)>` (ascending
                               lexicographic iteration) -- the deterministic model
      expand_one(_sorted)      expander.rs  expand_one
+     get_key_offset           expander.rs  get_key_offset on paths as component lists
      resolve_alist            convenience for the extraction driver: a resolver given as
                               an association list ((includer path, filename), offset).
 
@@ -165,6 +166,37 @@ Fixpoint hint_list (files : list N) (file : N) : bool :=
   match files with
   | [] => false
   | f :: r => if N.eqb f file then true else hint_list r file
+  end.
+
+
+(* ---- import path resolution: expander.rs get_key_offset ---------------------------
+   Paths are lists of components.  `keys.iter().position(|x| x == filepath)`, else
+   `path_of_includer.parent().map(|p| p.join(filepath))` looked up the same way.
+   (Only relative paths without `.`/`..` components are modelled.) *)
+Fixpoint path_eqb (a b : list N) : bool :=
+  match a, b with
+  | [], [] => true
+  | x :: a', y :: b' => N.eqb x y && path_eqb a' b'
+  | _, _ => false
+  end.
+
+Fixpoint position_of (p : list N) (keys : list (list N)) : option nat :=
+  match keys with
+  | [] => None
+  | k :: r => if path_eqb k p then Some O
+              else match position_of p r with Some i => Some (S i) | None => None end
+  end.
+
+Definition parent_of (p : list N) : option (list N) :=
+  match p with [] => None | _ => Some (removelast p) end.
+
+Definition get_key_offset (file : list N) (keys : list (list N)) (includer : list N) : option nat :=
+  match position_of file keys with
+  | Some i => Some i
+  | None => match parent_of includer with
+            | Some dir => position_of (dir ++ file) keys
+            | None => None
+            end
   end.
 
 (* ---- ordered pairs of module offsets ---- *)
